@@ -36,7 +36,7 @@ def run(ctx):
     shared.rollback_rearm(ctx, "R2")
     g = cfg_of(sched.node)
     calls = self_calls_in(sched, "_after_timer")
-    c.floor("R2", "_after_timer calls in _schedule_state_tasks", len(calls), 1)
+    c.expect("R2", "_after_timer calls in _schedule_state_tasks", len(calls), 1, sched, f"{sched.short} no longer arms the after-timers of the state it is called for: delayed transitions never fire")
     for call in calls:
         loops = [l for l in enclosing_loops(sched, call) if isinstance(l, ast.For)]
         ok = len(loops) == 2 and "after" in norm(loops[-1].iter)
